@@ -240,6 +240,27 @@ ok = ok and same('failing paths re-rooted', sorted(tx(tuple(f.path)) for rt in s
 return ok
 """
         out.append(mk_case(f"c18.add.root_modifiers.{rid}", [("t", "int"), ("u1", "Union[int, bool, None]"), ("u2", "int")], body, pre=[f"BU({L}, t, u1, u2)"], stubs=["sym_repr"]))
+    # T's rule paths (and the root) keep their part kinds when re-rooted: a map-only part with an int / bool / float key stays
+    # map-only (it must not start matching list indices), labelled and conditioned parts stay what they were
+    for rid, rsrc, pref in [("one", "DataPath('r')", "('r',)"), ("two", "DataPath('top', MapValue(key='r'))", "('top', 'r')")]:
+        body = f"""
+at_root = [u1, u2, 'c']
+doc = {{'r': at_root, 'top': {{'r': at_root}}, 'm': {{1: u1, True: u2}}}}
+T = Schema([Rule((MapValue(key=1),), Value.is_instance(str)), Rule((MapValue(key=True),), Value.is_instance(str)),
+            Rule((MapValue(key=2.0),), Value.is_instance(int)), Rule((MapValue(key=0, label='first'), 'x'), Value.truthy()),
+            Rule((1,), Value.is_instance(int, bool) | Value.equal_to(None))])
+S = Schema([])
+S.add_schema(T, {rsrc})
+sv, tv = S.validate(doc), T.validate(at_root)
+ok = same('S judges what lies at R as T does', (sv.is_valid, sv.num_failures, sv.num_rules_tested), (tv.is_valid, tv.num_failures, tv.num_rules_tested))
+ok = ok and same('failing paths re-rooted', sorted(tx(tuple(f.path)) for rt in sv.rule_tests for f in rt.failures), sorted(tx({pref} + tuple(f.path)) for rt in tv.rule_tests for f in rt.failures))
+S2 = Schema([])
+S2.add_schema(T, DataPath('m'))
+sv, tv = S2.validate(doc), T.validate(doc['m'])
+ok = ok and same('... and a mapping at R', (sv.is_valid, sv.num_failures, sv.num_rules_tested), (tv.is_valid, tv.num_failures, tv.num_rules_tested))
+return ok
+"""
+        out.append(mk_case(f"c18.add.part_kinds_kept.{rid}", [("t", "int"), ("u1", "Union[int, bool, None]"), ("u2", "int")], body, pre=[f"BU({L}, t, u1, u2)"], stubs=["sym_repr"]))
     # a schema added to itself
     body = """
 doc = {'a': {'p': u1, 'a': {'p': u2}}, 'p': u2}
